@@ -159,6 +159,18 @@ func (ex *Executor) setResult(st *State, fr *Frame, rv ssa.Value, res []Val) {
 	}
 }
 
+func (ex *Executor) opaque(name string) bool {
+	if ex.unitSpec == nil {
+		return false
+	}
+	for _, o := range ex.unitSpec.Opaque {
+		if nameMatches(name, o) {
+			return true
+		}
+	}
+	return false
+}
+
 func (ex *Executor) observed(name string) bool {
 	if ex.unitSpec == nil {
 		return false
@@ -290,6 +302,14 @@ func (ex *Executor) dispatchCall(st *State, fr *Frame, cc *ssa.CallCommon, fv Va
 			return false
 		}
 		return finish(res)
+	}
+	if inRepoFn && ex.opaque(name) {
+		ex.Assumed["opaque call of "+dname+" in "+ex.unitKey+": its results and its static write set are unknown afterwards"] = true
+		st.havocNames(ex.writtenIn(fn))
+		na := Fresh("alloc", SInt)
+		st.assume(Ge(na, st.alloc))
+		st.alloc = na
+		return finish(ex.havocResults(st, fn.Signature, "opq."+fn.Name()))
 	}
 	if inRepoFn {
 		if fr.depth >= ex.maxDepth {
